@@ -15,7 +15,8 @@ RULE = ('event sequences from boot over {connect ok/refused/timeout, peer OPEN v
         'wrong AS/hold 1/hold 2, KEEPALIVE, UPDATE, NOTIFICATION version-error/other, ROUTE-REFRESH, bad marker, bad '
         'length, unknown type, peer close, time to next timer, manual stop/start}, only physically possible events, '
         'single-connection regime. BFS with fingerprint de-duplication + random walks + the grid NOTIFICATION error code '
-        '0..255 x subcodes x data length x {OpenSent, OpenConfirm, Established}. Non-trivial = sequence leaves '
+        '0..255 x subcodes x data length x {OpenSent, OpenConfirm, Established} + the grid of messages shorter than their '
+        'type\'s RFC minimum (OPEN < 29, UPDATE < 23, NOTIFICATION < 21, KEEPALIVE != 19). Non-trivial = sequence leaves '
         'Connect and has an event in OpenSent or later; distinct = distinct (fingerprint, event) pairs (BFS) / '
         'distinct sequences (walks).')
 ASSUMPTIONS = [
@@ -74,6 +75,7 @@ def shards(tier):
                         'depth': DEPTH[tier]})
     for i in range(4):
         out.append({'name': 'notification-codes-%d' % i, 'kind': 'notif', 'part': i, 'parts': 4})
+    out.append({'name': 'short-messages', 'kind': 'short'})
     nw = 150 if tier == 'quick' else 12000
     for i in range(4 if tier == 'quick' else 16):
         out.append({'name': 'walks-%d' % i, 'kind': 'walk', 'examples': nw, 'hypothesis': True,
@@ -180,6 +182,20 @@ def run_walk(case):
 def run_shard(spec, seed, col, tier):
     if spec['kind'] == 'bfs':
         bfs(spec, col)
+    elif spec['kind'] == 'short':
+        # RFC 4271 6.1: OPEN < 29, UPDATE < 23, NOTIFICATION < 21, KEEPALIVE != 19 octets -> Bad Message Length
+        cfg = CONFIGS['quick'][0]
+        reach = {'OPENSENT': [['boot'], ['ok']], 'OPENCONFIRM': [['boot'], ['ok'], ['open', 'valid', 90]],
+                 'ESTABLISHED': [['boot'], ['ok'], ['open', 'valid', 90], ['ka']]}
+        for mtype, lens in ((1, range(0, 10)), (2, range(0, 4)), (3, range(0, 2)), (4, (1, 2, 5, 100, 4077))):
+            for n in lens:
+                for state in sorted(reach):
+                    path = reach[state] + [['bad_len', mtype, n]]
+                    d = replay_path(cfg, path)
+                    case = {'cfg': cfg, 'events': path}
+                    col.case(case, True, labels=['short-message-grid', 'state:' + state])
+                    for sig, detail in d.failures:
+                        col.fail(sig, case, detail)
     elif spec['kind'] == 'notif':
         # every NOTIFICATION error code x a set of subcodes x data lengths in each state with a live connection:
         # the RFC reaction (no reply, close, Idle) does not depend on the code
